@@ -40,7 +40,10 @@ func New(ctx context.Context, clock clock.IClock, definition schema.TimerEventDe
 			return
 		}
 		go dateTimeTimer(ctx, clock, t, func() {
-			ch <- definition
+			select {
+			case ch <- definition:
+			case <-ctx.Done():
+			}
 			close(ch)
 		})
 	case !timeDatePresent && timeCyclePresent && !timeDurationPresent:
@@ -55,7 +58,10 @@ func New(ctx context.Context, clock clock.IClock, definition schema.TimerEventDe
 			repeatingInterval.Interval.Start = &now
 		}
 		go recurringTimer(ctx, clock, repeatingInterval, func() {
-			ch <- definition
+			select {
+			case ch <- definition:
+			case <-ctx.Done():
+			}
 		}, func() {
 			close(ch)
 		})
@@ -67,7 +73,10 @@ func New(ctx context.Context, clock clock.IClock, definition schema.TimerEventDe
 			return
 		}
 		go dateTimeTimer(ctx, clock, clock.Now().Add(duration.Duration), func() {
-			ch <- definition
+			select {
+			case ch <- definition:
+			case <-ctx.Done():
+			}
 			close(ch)
 		})
 	default:
@@ -86,7 +95,10 @@ func recurringTimer(ctx context.Context, clock clock.IClock, interval iso8601.Re
 	}
 	ch := make(chan struct{})
 	go dateTimeTimer(ctx, clock, *interval.Interval.Start, func() {
-		ch <- struct{}{}
+		select {
+		case ch <- struct{}{}:
+		case <-ctx.Done():
+		}
 	})
 	select {
 	case <-ctx.Done():
